@@ -103,3 +103,75 @@ pub fn roundtrip(req: &Value) -> Value {
         Err(e) => json!({"write": "Ok", "files": files, "bystander": bystander, "read": format!("Err:{e}")}),
     }
 }
+
+/// implicit layer paths: build bin/lib/include/pkgconfig of the requested kinds, write explicit entries, read, apply,
+/// then two read->write cycles comparing the env directories
+pub fn paths(req: &Value) -> Value {
+    let tmp = tempfile::tempdir().unwrap();
+    let dir = tmp.path().join("n");
+    std::fs::create_dir_all(&dir).unwrap();
+    let tdir = tmp.path().join("T");
+    std::fs::create_dir_all(tdir.join("dir")).unwrap();
+    std::fs::write(tdir.join("file"), "t").unwrap();
+    for (sub, kind) in req["subs"].as_object().unwrap() {
+        let p = dir.join(sub);
+        match kind.as_str().unwrap() {
+            "dir" => std::fs::create_dir_all(&p).unwrap(),
+            "file" => std::fs::write(&p, "f").unwrap(),
+            "link-dir" => std::os::unix::fs::symlink(tdir.join("dir"), &p).unwrap(),
+            "link-file" => std::os::unix::fs::symlink(tdir.join("file"), &p).unwrap(),
+            "link-dangling" => std::os::unix::fs::symlink(tmp.path().join("nowhere"), &p).unwrap(),
+            _ => {}
+        }
+    }
+    if layer_env_of(&req["entries"]).write_to_layer_dir(&dir).is_err() {
+        return json!({"stage": "write0-failed"});
+    }
+    let list = |d: &std::path::Path| -> Vec<(String, String)> {
+        let mut out = vec![];
+        for e in ["env", "env.build", "env.launch"] {
+            if let Ok(rd) = std::fs::read_dir(d.join(e)) {
+                for f in rd {
+                    let p = f.unwrap().path();
+                    out.push((format!("{e}/{}", p.file_name().unwrap().to_string_lossy()), std::fs::read_to_string(&p).unwrap_or_default()));
+                }
+            }
+        }
+        out.sort();
+        out
+    };
+    let before = list(&dir);
+    let Ok(le) = LayerEnv::read_from_layer_dir(&dir) else { return json!({"stage": "read-failed"}) };
+    let layer = dir.to_string_lossy().to_string();
+    let mut envs = vec![];
+    for q in req["queries"].as_array().unwrap() {
+        let mut env = Env::new();
+        for (k, v) in q["start"].as_object().unwrap() {
+            if let Some(s) = v.as_str() {
+                env.insert(k, s);
+            }
+        }
+        let out = le.apply(scope_of(q["query"].as_str().unwrap()), &env);
+        let mut m = serde_json::Map::new();
+        for (k, v) in &out {
+            m.insert(k.to_string_lossy().to_string(), Value::String(v.to_string_lossy().replace(&layer, "<layer>")));
+        }
+        envs.push(Value::Object(m));
+    }
+    let mut cur = le;
+    let mut after = before.clone();
+    for _ in 0..2 {
+        if cur.write_to_layer_dir(&dir).is_err() {
+            return json!({"stage": "rewrite-failed"});
+        }
+        after = list(&dir);
+        if after != before {
+            break;
+        }
+        match LayerEnv::read_from_layer_dir(&dir) {
+            Ok(x) => cur = x,
+            Err(_) => return json!({"stage": "reread-failed"}),
+        }
+    }
+    json!({"stage": "ok", "envs": envs, "files_before": before, "files_after": after})
+}
